@@ -1,6 +1,6 @@
 """C08 configuration for ./check (see checks/propcfg.py for the keys)."""
 CFG = {
-    "modules": ["VaxisModel.Props.C08", "VaxisModel.Props.C08Fine", "VaxisModel.Props.C08Pools", "VaxisModel.Props.C08Live", "VaxisModel.Props.C08Spec", "VaxisModel.Props.C08FineChan", "VaxisModel.Props.C08Order", "VaxisModel.Props.C08Drive", "VaxisModel.Props.C08Payload", "VaxisModel.Props.C08Sched", "VaxisModel.Props.C08DriveParams", "VaxisModel.Witness.F29"],
+    "modules": ["VaxisModel.Props.C08", "VaxisModel.Props.C08Fine", "VaxisModel.Props.C08Pools", "VaxisModel.Props.C08Live", "VaxisModel.Props.C08Spec", "VaxisModel.Props.C08FineChan", "VaxisModel.Props.C08Order", "VaxisModel.Props.C08Drive", "VaxisModel.Props.C08Payload", "VaxisModel.Props.C08Sched", "VaxisModel.Props.C08DriveParams", "VaxisModel.Props.C08FineFair", "VaxisModel.Witness.F29"],
     "extractors": ["C02"],
     "drivers": ["C08", "C08Sched"],
     "trivial_prefix": ("Z |",),
